@@ -62,6 +62,11 @@ CLAIMS["C18"] = dict(
    text="Decides the shape of every sampler: for tapes at the region boundaries and every residue of bits mod 8, Integer.random/random_range, StrongRandom.getrandbits/randrange (including stepped ranges with a remainder) and the legacy number helpers return exactly what a masking/rejection sampler returns (exact acceptance interval, result = candidate + minimum, no modulo or truncation); each consumer (EC scalar, FIPS nonces, blinding factors) asks for the documented interval; a caller-supplied randfunc reaches every callee that accepts one (reviewed exceptions listed). Statistical quality of the OS source and loop termination are not decided.",
    note="Uniformity follows from the rejection-sampler shape given a uniform tape; the reference samplers are in vstat/props/C18.py.")
 
+CLAIMS["C20"] = dict(
+   technique="abstract interpretation of the field operations and of split()/combine() on boundary representatives with the random source replaced by a tape, compared with the checker's own GF(2)[x] arithmetic; irreducibility of the modulus decided by Rabin's test in the checker; syntactic effect rule",
+   text="Decides that the modulus literal is the documented irreducible polynomial, that multiplication/inverse/power are reduced field operations at the reduction boundaries (including equal operands with the top bits set and index products of degree >= 128), that split() draws k-1 independent full-field coefficients, places the secret as constant term and evaluates at x = 1..n (both variants), that combine() interpolates over all supplied shares and refuses duplicates, and that no operator mutates an operand. Field laws and reconstruction for all values are not decided.",
+   note="Oracle: vstat/spec/gf2.py (carry-less multiplication, polynomial reduction, Rabin irreducibility test, Lagrange interpolation).")
+
 NOT_YET = {}
 
 ALL = ["C%02d" % i for i in range(1, 21)]
